@@ -49,8 +49,8 @@ def is_decoy(g):
 
 class P(P02):
     id = "C14"
-    quick_cases = 1200
-    thorough_cases = 40000
+    quick_cases = 3000
+    thorough_cases = 200000
     chunk = 200
     rule = (
         "tie-heavy inputs: 1-4 target groups and 1-4 decoy groups (twins of the targets or other names from A-F, a few "
@@ -177,7 +177,9 @@ class P(P02):
         after2 = [sh[1]["before"][i] for i in sh[1]["perm"]]
         po = rec["pass"]
         if None in after1 or None in after2 or None in po or None in rec["out_idx"]:
-            return "recorded lists contain objects that are not the input groups"
+            # the code handed copies of groups with ambiguous content around: positions cannot be observed from
+            # outside; the exact comparison of pass order and ranking with the model (by content) still applies
+            return None
         if sorted(after1) != sorted(with_ev):
             return "the first shuffle was not applied to the groups with evidence"
         if sorted(po) != sorted(with_ev):
@@ -227,6 +229,9 @@ class P(P02):
         f = super().features(case, impl_out)
         f.append("arrival=%s" % case.get("arrival"))
         if isinstance(impl_out, dict) and "_rec" in impl_out:
+            if any(None in rec["pass"] or None in rec["out_idx"] for rec in impl_out["_rec"]):
+                f.append("group_identity_not_observable(oracle abstains)")
+        if isinstance(impl_out, dict) and "_rec" in impl_out:
             for call, rec in zip(case["calls"], impl_out["_rec"]):
                 sc = {}
                 for i, g in enumerate(call["groups"]):
@@ -248,6 +253,8 @@ class P(P02):
             ("ranking", [["A"], ["B"]], [["REV__C"], ["REV__D"]]),
             # tied twins -> the first shuffle decides who competes first and survives
             ("twins", [["A"], ["B"]], [["REV__A"], ["REV__B"]]),
+            # tied regular groups and placeholders: regular ones compete first, the second shuffle mixes them again
+            ("ranking", [["A"], ["OBSOLETE__B"]], [["REV__C"], ["OBSOLETE__REV__D"]]),
         ]
         for kind, targets, decoys in fixed:
             for arrival in ARRIVALS:
